@@ -131,6 +131,22 @@ theorem names_distinct_of_clean (suites : List Suite) (cases : List Case) (mode 
     ((specList pathJoin suites cases mode).map (·.fullName)).Nodup :=
   names_specList_nodup suites cases mode hn hd hc
 
+/-- So for clean, distinctly named definitions (config cases listed once) being well-formed is a
+matter of the definitions alone — named non-empty suites, no misconfiguration, valid tests where a
+case is met, no relevant list repeating a value in use — and, by `newLibrary_accepts_iff`, exactly
+these inputs are expanded. -/
+theorem wellformed_iff_of_clean (suites : List Suite) (cases : List Case) (mode : Mode)
+    (hn : NamesClean suites) (hd : DefinitionsDistinct suites) (hc : cases.Nodup) :
+    WellFormed pathJoin suites cases mode ↔
+      ((∀ s ∈ suites, s.name ≠ "" ∧ s.tests ≠ []) ∧
+       (∀ s ∈ suites, ModeAdmits s mode → ¬ Misconfigured s) ∧
+       (∀ s ∈ suites, ∀ c ∈ cases, Admits s mode c →
+         (∀ t ∈ s.tests, t.name ≠ "" ∧ t.st ≠ .unspec ∧ (t.st = c.s → ServiceMethodOk t)) ∧
+         ((∃ t ∈ s.tests, t.st = c.s) → NoRepeat s c))) := by
+  constructor
+  · rintro ⟨w1, _, w3, w4, _⟩; exact ⟨w1, w3, w4⟩
+  · rintro ⟨w1, w3, w4⟩; exact ⟨w1, hd.1, w3, w4, names_distinct_of_clean suites cases mode hn hd hc⟩
+
 /-- **The "duplicate definition" error only fires on genuinely duplicated definitions**: with
 clean names, if `newTestCaseLibrary` fails with `duplicate definition for <name>` then two suites
 or two tests of one suite have the same name, or a relevant list names twice the value of a config
@@ -326,6 +342,15 @@ example : (newLibrary simpleJoin [repeatSuite] (inSet (exampleCases.take 2)) .cl
 /-! non-vacuity of `names_injective` / `duplicate_error_genuine`, and why `NamesClean` is needed -/
 
 example : NamesClean [exampleSuite] ∧ DefinitionsDistinct [exampleSuite] := by decide
+
+/-- the example is well-formed and expanded with the modelled `path.Join` too -/
+example : WellFormed pathJoin [exampleSuite] exampleCases .client ∧
+    ((newLibrary pathJoin [exampleSuite] (inSet exampleCases) .client).toOption.map fun l => l.map (·.fullName)) =
+      some ["Basic/HTTPVersion:2/TLS:true/unary/ok", "Basic/HTTPVersion:1/TLS:false/unary/ok"] := by decide
+
+/-- two admitted cases with different open-axes projections (`names_injective_case` is not vacuous) -/
+example : Admits exampleSuite .client (exampleCases.getD 0 default) ∧ Admits exampleSuite .client (exampleCases.getD 1 default) ∧
+    openAxes exampleSuite (exampleCases.getD 0 default) ≠ openAxes exampleSuite (exampleCases.getD 1 default) := by decide
 
 /-- the config case all of whose axes the suites below pin -/
 def pinnedCase : Case := ⟨.v1, .connect, .proto, .identity, .unary, true, false, false, false, .unspec⟩
